@@ -553,6 +553,25 @@ pub fn generate(tier: &str, r: &mut Rng, emit: &mut dyn FnMut(Case)) {
         let mut args: Args = vec![rc, g(nf)]; args.extend(fields); args.extend(cols);
         emit(Case::new("c09.batch", args, &["c09.batch.spec"], format!("batch nf{nf} {m}")));
     }
+    // inline views: every length 0..=12, every padding byte position (and no corruption), both view types
+    for utf8 in [false, true] { for l in 0..=12usize { for p in (4 + l)..=16 {
+        let n = 1 + r.below(3); let at = r.below(n);
+        let mut views = vec![0u8; n * 16];
+        for i in 0..n { let li = if i == at { l } else { r.below(13) }; views[i * 16] = li as u8; for k in 0..li { views[i * 16 + 4 + k] = b'a' + ((i + k) % 23) as u8 } }
+        if p < 16 { views[at * 16 + p] = *r.pick(&[1u8, 0x20, 0x61, 0x80, 0xFF]) }
+        let mut node = Node { ty: Ty::View { utf8 }, len: n, off: 0, nulls: None, bufs: vec![views], kids: vec![] };
+        if r.chance(1, 3) { node.bufs.push(b"some data buffer!".to_vec()) }
+        for path in 0..3usize {
+            let mut nd = node.clone();
+            if path == 0 { normalise_for_try_new(&mut nd) } else { normalise_for_builder(&mut nd) }
+            let mut args: Args = vec![g(path)];
+            encode(&nd, &mut args);
+            let tag = format!("viewpad p{path} l{l} {}", if p < 16 { "dirty" } else { "clean" });
+            emit(Case::new("c09.validate", args.clone(), &["c09.validate"], tag.clone()));
+            emit(Case::new("c09.accepts", args.clone(), &["c09.accepts.spec"], tag.clone()));
+            if path == 0 { emit(Case::new("c09.typed", args[1..].to_vec(), &["c01.valid.post1"], format!("typed {tag}"))); }
+        }
+    } } }
     let n = if tier == "thorough" { 40000 } else { 4000 };
     for _ in 0..n {
         let ty = gen_ty(r, 2);
